@@ -60,13 +60,18 @@ theorem DInv.alloc {hb : H} {tr0 : List Eff} {s : S} {m : Memo} (D : DInv hb tr0
 
 theorem DInv.memoCons {hb : H} {tr0 : List Eff} {s : S} {m : Memo} (D : DInv hb tr0 s m) {a b : Nat}
     (hb1 : hb.next ≤ b) (hb2 : b < s.h.next) (hk : (s.h.obj b).kind = (hb.obj a).kind) :
-    DInv hb tr0 s ((a, b) :: m) :=
-  { D with memo := by
-      intro x y hxy
-      simp only [List.mem_cons, Prod.mk.injEq] at hxy
-      rcases hxy with ⟨rfl, rfl⟩ | h
-      · exact ⟨hb1, hb2, hk⟩
-      · exact D.memo x y h }
+    DInv hb tr0 s ((a, b) :: m) where
+  wf := D.wf
+  next_le := D.next_le
+  frame := D.frame
+  closed := D.closed
+  tr := D.tr
+  memo := by
+    intro x y hxy
+    simp only [List.mem_cons, Prod.mk.injEq] at hxy
+    rcases hxy with ⟨rfl, rfl⟩ | h
+    · exact ⟨hb1, hb2, hk⟩
+    · exact D.memo x y h
 
 theorem DInv.write {hb : H} {tr0 : List Eff} {s : S} {m : Memo} (D : DInv hb tr0 s m) {o f v : Nat}
     (ho1 : hb.next ≤ o) (ho2 : o < s.h.next) (hv1 : v < s.h.next) (hv2 : Fresh hb v) :
@@ -210,11 +215,16 @@ theorem copyWeak_spec {hb : H} {tr0 : List Eff} {f : CRec} (hf : CSpec hb tr0 f)
     DInv hb tr0 (copyWeak f s m w).1 (copyWeak f s m w).2.1 ∧ s.h.next ≤ (copyWeak f s m w).1.h.next ∧
       (∀ t, (copyWeak f s m w).2.2 = some t → t < (copyWeak f s m w).1.h.next ∧ Fresh hb t) ∧
       (∀ x, x < s.h.next → ((copyWeak f s m w).1.h.obj x).kind = (s.h.obj x).kind) := by
-  unfold copyWeak
   cases w with
-  | none => exact ⟨D, Nat.le_refl _, by intro t h; cases h, fun _ _ => rfl⟩
+  | none =>
+    have e : copyWeak f s m none = (s, m, none) := rfl
+    rw [e]
+    refine ⟨D, Nat.le_refl _, ?_, fun _ _ => rfl⟩
+    intro t h; cases h
   | some t =>
     have c := hf s m t D (hw t rfl)
+    have e : copyWeak f s m (some t) = ((f s m t).1, (f s m t).2.1, some (f s m t).2.2) := rfl
+    rw [e]
     refine ⟨c.inv, c.mono, ?_, c.kstable⟩
     intro x hx
     simp only [Option.some.injEq] at hx
@@ -334,12 +344,13 @@ theorem copyBody_spec {hb : H} {tr0 : List Eff} (wb : Wf hb) {f : CRec} (hf : CS
       have D5 := D4.memoCons (a := o) (b := s.h.next) D.next_le (by omega) (by rw [hkind, ← hobj, hk])
       simp only [alloc_id]
       refine ⟨D5, ?_, ?_, Or.inl D.next_le, ?_, ?_⟩
-      · simp only [alloc_next] at hm2; omega
-      · omega
+      all_goals (try dsimp only)
+      · exact Nat.le_of_lt (Nat.lt_of_lt_of_le hr2 hm4)
+      · exact Nat.lt_of_lt_of_le hr2 hm4
       · rw [hkind, ← hobj, hk]
       · intro x hx
-        rw [hkr x (by simp only [alloc_next]; omega), alloc_obj]
-        have : x ≠ s.h.next := by omega
+        rw [hkr x (by simp only [alloc_next]; exact Nat.lt_succ_of_lt hx), alloc_obj]
+        have : x ≠ s.h.next := Nat.ne_of_lt hx
         simp only [this, if_false]
     · -- HookHost.__deepcopy__ / default reconstruction: memo first, then the entries, then the weak link
       have D1 := D.alloc { s.h.obj o with fields := [], weak := none, items := [], content := [] } (empty_ptrs _)
@@ -360,7 +371,8 @@ theorem copyBody_spec {hb : H} {tr0 : List Eff} (wb : Wf hb) {f : CRec} (hf : CS
             ((o, s.h.next) :: m)).1
           (copyFields f s.h.next (s.h.obj o).fields
             (s.alloc { s.h.obj o with fields := [], weak := none, items := [], content := [] }).1
-            ((o, s.h.next) :: m)).2 (s.h.obj o).weak).1.h.next := by omega
+            ((o, s.h.next) :: m)).2 (s.h.obj o).weak).1.h.next :=
+        Nat.lt_of_lt_of_le (Nat.lt_of_lt_of_le (Nat.lt_succ_self _) hm3) hm4
       have D5 := D4.setWeak (o := s.h.next) D.next_le hr4 hw4
       simp only [alloc_id]
       have hkr : ∀ x, x < s.h.next + 1 →
@@ -376,13 +388,14 @@ theorem copyBody_spec {hb : H} {tr0 : List Eff} (wb : Wf hb) {f : CRec} (hf : CS
         rw [hk4 x (Nat.lt_of_lt_of_le hx hm3)]
         exact hk3 x (by simpa using hx)
       refine ⟨D5, ?_, ?_, Or.inl D.next_le, ?_, ?_⟩
-      · simp only [setWeak_next]; omega
-      · simp only [setWeak_next]; omega
-      · rw [kind_setWeak, hkr s.h.next (by omega)]
+      all_goals (try dsimp only)
+      · exact Nat.le_of_lt hr4
+      · exact hr4
+      · rw [kind_setWeak, hkr s.h.next (Nat.lt_succ_self _)]
         simp only [alloc_obj, if_true]; rw [← hobj]
       · intro x hx
-        rw [kind_setWeak, hkr x (by omega), alloc_obj]
-        have : x ≠ s.h.next := by omega
+        rw [kind_setWeak, hkr x (Nat.lt_succ_of_lt hx), alloc_obj]
+        have : x ≠ s.h.next := Nat.ne_of_lt hx
         simp only [this, if_false]
 
 theorem copyObj_spec {hb : H} {tr0 : List Eff} (wb : Wf hb) : ∀ fuel, CSpec hb tr0 (copyObj fuel) := by
